@@ -105,7 +105,7 @@ class Stepper(object):
                 if old:
                     self.classes.add("update_accepted_%s_to_%s" % (old[0]["type"][:4], data["type"][:4]))
         regs_after = [to_internal(d) for d in after]
-        scale = max([1.0] + [abs(v) for d in before + after for k, v in d.items() if k not in ("type", "id")])
+        scale = max([1.0] + [abs(v) for d in before + after for k, v in d.items() if k not in ("type", "id") and isinstance(v, (int, float))])
         for (x, y), was in zip(pts, inside_before):
             if was and not h.state.isPointExcluded(x, y):
                 gap = min([geom.signed_dist(r, x, y) for r in regs_after] or [float("inf")])
